@@ -2,7 +2,7 @@
    reshape, column nanmean, tiling, step-1 indexing; moving-cutoff windows; normal equations)
    equals the textbook definitions.  Statements only, each closed by `exact`. *)
 From Coq Require Import ZArith QArith List Bool.
-Require Import SkV.Lib.Base SkV.Lib.ZRange SkV.C11.Model SkV.C11.Proofs.
+Require Import SkV.Lib.Base SkV.Lib.ZRange SkV.C11.Model SkV.C11.Proofs SkV.C11.Gen SkV.C11.Bridge.
 Import ListNotations.
 Open Scope Z_scope.
 
@@ -224,6 +224,140 @@ Theorem C11_adapter_selects_requested_steps : forall n (g : Z -> oq) fh, sorted_
 Proof. exact adapter_selects. Qed.
 Print Assumptions C11_adapter_selects_requested_steps.
 
+(* ==== THROUGH THE BRIDGE: the same statements about what the code says NOW ====================
+   gen_resolve_wl / gen_kernel are regenerated on this run from NaiveForecaster.fit and
+   NaiveForecaster._predict_last_window (whole function bodies), gen_naive_predict assembles them
+   with the regenerated window / in-sample-cutoff / indexer expressions along the dispatch of
+   `_predict`; gen_poly_points / gen_poly_pred_time are the regenerated time axes of
+   PolynomialTrendForecaster.fit / _predict (C11/Gen.v, C11/Bridge.v). *)
+
+Theorem C11_code_is_model :
+  (forall s sp wlo n, gen_resolve_wl s sp wlo n = resolve_wl s sp wlo n) /\
+  (forall s sp w hs, gen_kernel s sp w hs = kernel s sp w hs) /\
+  (forall s sp wlo ys fh, gen_naive_predict s sp wlo ys fh = naive_predict s sp wlo ys fh) /\
+  (forall d ic t0 ys fh, gen_poly_predict d ic t0 ys fh = poly_predict d ic ys fh) /\
+  (forall t0 v, gen_poly_points t0 v = points v) /\
+  (forall c r, gen_poly_index c r = c + r).
+Proof.
+  exact (conj bridge_resolve_wl (conj bridge_kernel (conj bridge_naive_predict
+        (conj bridge_poly_predict (conj bridge_poly_points bridge_poly_index))))).
+Qed.
+Print Assumptions C11_code_is_model.
+
+Theorem C11_code_window_length_resolution : forall s sp wlo n,
+  (forall w, gen_resolve_wl s sp wlo n = Ok w ->
+     w = documented_wl s sp wlo n /\ w <= n /\ valid_params s sp wlo /\
+     ~ documented_reject s sp wlo n) /\
+  (gen_resolve_wl s sp wlo n = Err <->
+     (~ valid_params s sp wlo \/ documented_reject s sp wlo n \/ n < documented_wl s sp wlo n)).
+Proof. intros s sp wlo n. rewrite bridge_resolve_wl. exact (C11_window_length_resolution s sp wlo n). Qed.
+Print Assumptions C11_code_window_length_resolution.
+
+(* wherever the kernel reads `self.sp_`, fit has set it to the constructor's sp *)
+Theorem C11_code_fit_sp : forall s sp wlo n o, gen_fit_sp s sp wlo n = Ok o ->
+  match s with
+  | SLast => o = if sp =? 1 then None else Some sp
+  | SMean => o = Some sp
+  | SDrift => o = None
+  end.
+Proof.
+  intros s sp wlo n o H. rewrite bridge_fit_sp in H.
+  destruct (resolve_wl s sp wlo n); [|discriminate]. inversion H. destruct s; reflexivity.
+Qed.
+Print Assumptions C11_code_fit_sp.
+
+Theorem C11_code_seasonal_last_aligned : forall ys sp wlo fh,
+  1 < sp <= zlen ys -> sorted_lt fh -> all_pos fh ->
+  gen_naive_predict SLast sp wlo ys fh =
+    Ok (map (fun h => znth ys (last_same_season (zlen ys) sp h)) fh).
+Proof.
+  intros ys sp wlo fh H1 H2 H3. rewrite bridge_naive_predict.
+  exact (proj1 (C11_naive_seasonal_last_aligned ys sp wlo fh H1 H2 H3)).
+Qed.
+Print Assumptions C11_code_seasonal_last_aligned.
+
+Theorem C11_code_seasonal_mean_aligned : forall ys sp wlo wl fh,
+  1 < sp -> gen_resolve_wl SMean sp wlo (zlen ys) = Ok wl -> 1 <= wl -> sorted_lt fh -> all_pos fh ->
+  gen_naive_predict SMean sp wlo ys fh =
+  Ok (map (fun h => nanmean (sel (fun p => congb sp p (zlen ys - 1 + h)) (zlen ys - wl)
+                                 (skipn (Z.to_nat (zlen ys - wl)) ys))) fh).
+Proof.
+  intros ys sp wlo wl fh H1 H2 H3 H4 H5. rewrite bridge_resolve_wl in H2.
+  rewrite bridge_naive_predict. exact (C11_naive_seasonal_mean_aligned ys sp wlo wl fh H1 H2 H3 H4 H5).
+Qed.
+Print Assumptions C11_code_seasonal_mean_aligned.
+
+Theorem C11_code_seasonal_mean_kernel_any_window_length : forall sp w hs,
+  1 < sp -> sorted_lt hs -> all_pos hs ->
+  gen_kernel SMean sp w hs =
+  Ok (map (fun h => nanmean (sel (fun p => congb sp p (zlen w - 1 + h)) 0 w)) hs).
+Proof. intros sp w hs H1 H2 H3. rewrite bridge_kernel. exact (kernel_seasonal_mean sp w hs H1 H2 H3). Qed.
+Print Assumptions C11_code_seasonal_mean_kernel_any_window_length.
+
+Theorem C11_code_drift : forall ys sp wlo wl a b fh,
+  gen_resolve_wl SDrift sp wlo (zlen ys) = Ok wl -> 2 <= wl ->
+  znth ys (zlen ys - wl) = Some a -> znth ys (zlen ys - 1) = Some b -> all_pos fh ->
+  gen_naive_predict SDrift sp wlo ys fh = Ok (map (fun h => Some (drift_value wl a b h)) fh) /\
+  forall h, (drift_value wl a b h == line (zlen ys - wl) (zlen ys - 1) a b (zlen ys - 1 + h))%Q.
+Proof.
+  intros ys sp wlo wl a b fh H1 H2 H3 H4 H5. rewrite bridge_resolve_wl in H1.
+  rewrite bridge_naive_predict. exact (C11_naive_drift ys sp wlo wl a b fh H1 H2 H3 H4 H5).
+Qed.
+Print Assumptions C11_code_drift.
+
+Theorem C11_code_in_sample_last : forall ys sp wlo r, 1 <= sp <= zlen ys -> r <= 0 ->
+  let q := zlen ys - 1 + r in 0 <= q ->
+  gen_naive_predict SLast sp wlo ys [r] = Ok [if q <? sp then None else znth ys (q - sp)].
+Proof.
+  intros ys sp wlo r H1 H2 q H3. rewrite bridge_naive_predict.
+  exact (C11_in_sample_last ys sp wlo r H1 H2 H3).
+Qed.
+Print Assumptions C11_code_in_sample_last.
+
+Theorem C11_code_in_sample_mean : forall ys sp wlo wl r,
+  gen_resolve_wl SMean sp wlo (zlen ys) = Ok wl -> r <= 0 ->
+  let q := zlen ys - 1 + r in let lo := Z.max 0 (q - wl) in 0 <= q ->
+  gen_naive_predict SMean sp wlo ys [r] =
+  Ok [nanmean (sel (fun p => congb sp p q) lo (zslice ys lo q))].
+Proof.
+  intros ys sp wlo wl r H1 H2 q lo H3. rewrite bridge_resolve_wl in H1.
+  rewrite bridge_naive_predict. exact (C11_in_sample_mean ys sp wlo wl r H1 H2 H3).
+Qed.
+Print Assumptions C11_code_in_sample_mean.
+
+Theorem C11_code_in_sample_drift : forall ys sp wlo wl r,
+  gen_resolve_wl SDrift sp wlo (zlen ys) = Ok wl -> r <= 0 ->
+  let q := zlen ys - 1 + r in let lo := Z.max 0 (q - wl) in 0 <= q ->
+  (q - lo <= 1 -> gen_naive_predict SDrift sp wlo ys [r] = Ok [None]) /\
+  (forall a b, 2 <= q - lo -> znth ys lo = Some a -> znth ys (q - 1) = Some b ->
+     exists v, gen_naive_predict SDrift sp wlo ys [r] = Ok [Some v] /\
+               (v == line lo (q - 1) a b q)%Q).
+Proof.
+  intros ys sp wlo wl r H1 H2 q lo H3. rewrite bridge_resolve_wl in H1.
+  destruct (C11_in_sample_drift ys sp wlo wl r H1 H2 H3) as [Ha Hb]. split.
+  - intro H. rewrite bridge_naive_predict. exact (Ha H).
+  - intros a b H4 H5 H6. destruct (Hb a b H4 H5 H6) as [v [Hv Hl]]. exists v.
+    rewrite bridge_naive_predict. exact (conj Hv Hl).
+Qed.
+Print Assumptions C11_code_in_sample_drift.
+
+(* the polynomial forecaster with the regenerated time axes: fitted on the points
+   (np.arange(n_timepoints), y), evaluated at to_absolute_int(index[0], cutoff) for the step *)
+Theorem C11_code_poly_is_lsq_partial : forall degree ic t0 ys fh vals,
+  gen_poly_predict degree ic t0 ys fh = Ok vals ->
+  exists b v, all_some ys = Some v /\ length b = poly_m degree ic /\
+    (forall b', length b' = length b ->
+       (sse (poly_k0 ic) b (gen_poly_points t0 v) <= sse (poly_k0 ic) b' (gen_poly_points t0 v))%Q) /\
+    vals = map (fun r => Some (pval (poly_k0 ic) b
+                                    (inject_Z (gen_poly_pred_time t0 (t0 + zlen ys - 1) r)))) fh.
+Proof.
+  intros degree ic t0 ys fh vals H. rewrite bridge_poly_predict in H.
+  destruct (C11_poly_is_lsq_partial degree ic ys fh vals H) as [b [v [H1 [H2 [H3 H4]]]]].
+  exists b, v. rewrite bridge_poly_points. repeat split; try assumption.
+  rewrite H4. apply map_ext. intro r. rewrite bridge_poly_pred_time_fit. reflexivity.
+Qed.
+Print Assumptions C11_code_poly_is_lsq_partial.
+
 (* the hypotheses are satisfiable by a non-trivial instance: sp = 3, window of 5 (not a multiple of
    3), a missing value, horizons beyond two seasons; and a quadratic fit exists *)
 Example C11_nonvacuous :
@@ -237,5 +371,7 @@ Example C11_nonvacuous :
   naive_predict SDrift 1 None [Some 1; Some 2; Some 4; Some 8]%Q [-2; -1; 0]
     = Ok [None; Some (3 # 1)%Q; Some (11 # 2)%Q] /\
   resolve_wl SDrift 1 None 1 = Err /\ resolve_wl SMean 4 None 2 = Err /\
+  gen_resolve_wl SDrift 1 None 1 = Err /\ gen_resolve_wl SMean 4 None 2 = Err /\
+  gen_naive_predict SMean 3 (Some 5) ys [-3; 1; 7] = Ok [Some (1 # 1)%Q; Some 16%Q; Some 16%Q] /\
   poly_fit 2 true [Some 1; Some 2; Some 4; Some 8]%Q = Ok [(21 # 20)%Q; (1 # 20)%Q; (3 # 4)%Q].
 Proof. vm_compute. repeat split; reflexivity. Qed.
